@@ -245,11 +245,13 @@ pub fn str_to_dec(lit: &str) -> Result<(i128, isize), ParseDecimalError> {
     if lit.is_empty() {
         return Err(ParseDecimalError::Invalid);
     }
+    let len_before = lit.len();
     lit.skip_leading_zeroes();
     if lit.is_empty() {
         // There must have been atleast one zero. Ignore sign.
         return Ok((0, 0));
     }
+    let has_leading_zeroes = lit.len() < len_before;
     let mut coeff = 0_u128;
     // Parse integral digits.
     let n_int_digits = lit.accum_coeff(&mut coeff);
@@ -263,7 +265,8 @@ pub fn str_to_dec(lit: &str) -> Result<(i128, isize), ParseDecimalError> {
         }
     }
     let n_digits = n_int_digits + n_frac_digits;
-    if n_digits == 0 {
+    // Skipped leading zeroes are integral digits, too.
+    if n_digits == 0 && !has_leading_zeroes {
         return Err(ParseDecimalError::Invalid);
     }
     // check for overflow
@@ -316,6 +319,10 @@ pub fn str_to_dec(lit: &str) -> Result<(i128, isize), ParseDecimalError> {
     exp -= n_frac_digits as isize;
     if -exp > crate::MAX_N_FRAC_DIGITS as isize {
         return Err(ParseDecimalError::FracDigitLimitExceeded);
+    }
+    if coeff == 0 && exp > 0 {
+        // zero needs no scaling, however large the exponent is
+        exp = 0;
     }
     if is_negative {
         Ok((-(coeff as i128), exp))
